@@ -66,7 +66,8 @@ pub struct Violation {
 
 #[derive(Default)]
 pub struct ExecResult {
-    pub violation: Option<Violation>,
+    /// all oracle violations of this execution (known findings are filtered by the explorer)
+    pub violations: Vec<Violation>,
     /// panic message + location if the execution was aborted by a panic in the subject
     pub panic: Option<String>,
     /// hash of the observable outcome (for counting distinct outcomes)
@@ -216,7 +217,7 @@ impl Explorer {
             let mut ss = self.stats.samples.lock().unwrap();
             if ss.len() < 6 { ss.push(s); }
         }
-        if let Some(v) = r.violation {
+        for v in r.violations {
             if (self.is_known)(&v) {
                 *self.known_hits.lock().unwrap().entry(v.sig.clone()).or_insert(0) += 1;
             } else {
